@@ -197,7 +197,13 @@ class Vars:
 
     def int(self, name, lo=None, hi=None):
         from symnp import fresh_int
-        v = fresh_int(name, lo, hi)
+        if lo is not None and lo == hi and getattr(self, "literal_singletons", False):
+            # a one-value range is a literal: the input is a concrete number (text made of it can pass through str(), float(), ...)
+            import z3
+            from symnp import SV
+            v = SV(z3.IntVal(lo), lo, hi)
+        else:
+            v = fresh_int(name, lo, hi)
         self.names.append(name); self.vars[name] = v; self.kinds[name] = "int"
         return v
 
